@@ -727,8 +727,11 @@ class MembersType(StandardEncodeMixin, StandardDecodeMixin, Type):
                                        encoded_addition)
 
                 encoded_members.extend(encoded_addition)
-        except EncodeError:
-            pass
+        except EncodeError as e:
+            # A missing addition ends the extension additions. An error
+            # in a present addition has a location and is not ignored.
+            if e.location:
+                raise
 
     def encode_member(self, member, data, encoded_members):
         name = member.name
